@@ -435,6 +435,24 @@ theorem history_with_reloads {d : Disk} (h : Coh d) (steps : List Reload.Fat.Ste
 theorem exec_coh {d : Disk} (h : Coh d) (steps : List Reload.Fat.Step) : Coh (exec d steps).2 :=
   (exec_sim steps (dsim_refl h)).2.coh'
 
+/-- C06 (FAT12), `format` (as of /repo 55a0597) — preservation: called with a boot sector that carries the object's BPB and
+an acceptable label (`FmtArgs`) it succeeds and leaves a coherent object, whatever the buffer held. -/
+theorem format_coh_preserved {d : Disk} {vol boot : Bytes} {now : Stamp} (h : Coh d) (a : FmtArgs d vol boot now) :
+    (Fs.Fat.format vol boot now d).1 = .ok () ∧ Coh (Fs.Fat.format vol boot now d).2 := format_coh h a
+
+/-- C06 (FAT12), clause 6 for `format`: after save and load `format` answers the same and leaves **the very same
+object**.  False before the repair `fat-format-stale-fat-buffer` (the original kept its stale buffer: 334 instead of
+339 free clusters, design/C06.md §5.1), which this proof attempt found. -/
+theorem format_after_reload_same {d : Disk} (h : Coh d) (vol boot : Bytes) (now : Stamp) (hl : isLabelValid vol = true ∨ vol = []) :
+    Fs.Fat.format vol boot now (reload d) = Fs.Fat.format vol boot now d := format_twin (reload_dsim h) vol boot now hl
+
+/-- C06 (FAT12), whole histories **including `format`** (every `format` called with fitting arguments, `ValidF`): reloads
+anywhere change no answer, and the final objects save to the same bytes. -/
+theorem history_with_reloads_format {d : Disk} (h : Coh d) (steps : List Reload.Fat.StepF) (hv : ValidF d (opsOfF steps)) :
+    (execF d steps).1 = (execF d (opsOfF steps)).1 ∧ save (execF d steps).2 = save (execF d (opsOfF steps)).2 := by
+  obtain ⟨e, s⟩ := execF_sim steps (dsim_refl h) hv
+  exact ⟨e, dsim_save s⟩
+
 /-! ### non-vacuity and the negative witness -/
 
 open A2Verif.FsFat (exDisk)
@@ -453,6 +471,13 @@ example : (statFree (reload exD)).1 = (statFree exD).1 := by
 example : (exec exDisk [.op (.delete [65, 46, 66]), .reload, .op .statFree, .reload, .op (.catalog [])]).1 =
     (exec exDisk [.op (.delete [65, 46, 66]), .op .statFree, .op (.catalog [])]).1 :=
   (history_with_reloads exDisk_coh' _).1
+
+/-- non-vacuity of the `format` clauses: on the freshly formatted example volume, put a file, reload, format again -/
+example : (execF A2Verif.FsFat.exDisk0 [.reload, .op (.format [86] A2Verif.FsFat.exBoot A2Verif.FsFat.exStamp), .reload, .op (.op .statFree)]).1 =
+    (execF A2Verif.FsFat.exDisk0 [.op (.format [86] A2Verif.FsFat.exBoot A2Verif.FsFat.exStamp), .op (.op .statFree)]).1 :=
+  (history_with_reloads_format Reload.Fat.exDisk0_coh
+    [.reload, .op (.format [86] A2Verif.FsFat.exBoot A2Verif.FsFat.exStamp), .reload, .op (.op .statFree)]
+    (show Reload.Fat.FmtArgs _ _ _ _ ∧ (True ∧ True) from ⟨Reload.Fat.exFmtArgs, trivial, trivial⟩)).1
 
 end Fat
 
@@ -628,5 +653,28 @@ theorem ambiguous_image : identify .po ambiguousBytes = some .prodos ∧ identif
     identify .none ambiguousBytes = some .dos33 := Reload.Ident.ambiguous_image
 
 end Ident
+
+/-! ## Clause 6 in one place: continuing after a reload
+
+What the `Save` / `Reload` operations of the history generator (`harness/src/fam/fs.rs`) check on the real code — the
+history goes on with the re-loaded object, every later step oracle and the per-step tie then see whatever was held only in
+a buffer — is, on the models, the conjunction of the five history theorems: a history with reloads anywhere answers as the
+history without them, and ends in objects that save to the same bytes.  For ProDOS the statement starts at the re-loaded
+object's first bitmap access (`continuation_after_reopen_partial`; what is missing is said there). -/
+theorem continuation_after_reload :
+    (∀ (steps : List Pascal.Step) {r : Raw}, Pascal.Coh r → Pascal.exec r steps = Pascal.exec r (Pascal.opsOf steps)) ∧
+    (∀ {dpb : Read.Cpm.Dpb} (steps : List Cpm.Step) {r : Raw}, Cpm.Coh dpb r → Cpm.exec dpb r steps = Cpm.exec dpb r (Cpm.opsOf steps)) ∧
+    (∀ {d : Fs.Dos3x.Disk}, Reload.Dos.Coh d → ∀ steps : List Reload.Dos.Step,
+      (Reload.Dos.exec d steps).1 = (Reload.Dos.exec d (Reload.Dos.opsOf steps)).1 ∧
+      Reload.Dos.save (Reload.Dos.exec d steps).2 = Reload.Dos.save (Reload.Dos.exec d (Reload.Dos.opsOf steps)).2) ∧
+    (∀ {d : Fs.Fat.Disk}, Reload.Fat.Coh d → ∀ steps : List Reload.Fat.StepF, Reload.Fat.ValidF d (Reload.Fat.opsOfF steps) →
+      (Reload.Fat.execF d steps).1 = (Reload.Fat.execF d (Reload.Fat.opsOfF steps)).1 ∧
+      Reload.Fat.save (Reload.Fat.execF d steps).2 = Reload.Fat.save (Reload.Fat.execF d (Reload.Fat.opsOfF steps)).2) ∧
+    (∀ {d : Fs.Prodos.Disk} {b : Array Nat}, Reload.Prodos.Coh d → d.bitmap = some b → d.total < 4096 → ∀ ops : List Reload.Prodos.Op,
+      (Reload.Prodos.exec (Reload.Prodos.openTwin d b) ops).1 = (Reload.Prodos.exec d ops).1 ∧
+      Reload.Prodos.save (Reload.Prodos.exec (Reload.Prodos.openTwin d b) ops).2 = Reload.Prodos.save (Reload.Prodos.exec d ops).2) :=
+  ⟨fun steps _ h => Pascal.history_with_reloads steps h, fun steps _ h => Cpm.history_with_reloads steps h,
+   fun h steps => Dos.history_with_reloads h steps, fun h steps hv => Fat.history_with_reloads_format h steps hv,
+   fun h hb ht ops => Prodos.continuation_after_reopen_partial h hb ht ops⟩
 
 end A2Verif.C06Reload
